@@ -260,8 +260,14 @@ def gen_merge_doc(rng):
         items = ["%s: %s" % (k, rng.choice(MERGE_VALUES)) for k in own]
         items.insert(rng.randint(0, len(items)), mk)
         return "{%s}" % ", ".join(items)
+    chain = rng.random() < 0.3        # layered defaults: an inheritor that is itself merged by another mapping (and so on)
     for i in range(rng.randint(1, 3)):
-        parts.append("svc%d: %s" % (i, inheritor()))
+        parts.append("svc%d: %s%s" % (i, "&L2 " if chain and i == 0 else "", inheritor()))
+    if chain:
+        third = rng.random() < 0.5
+        parts.append("tier2: %s{<<: *L2%s}" % ("&L3 " if third else "", rng.choice(["", ", z: 1", ", %s: 7" % rng.choice(MERGE_KEYS)])))
+        if third:
+            parts.append("tier3: {<<: *L3, y: 2}")
     if rng.random() < 0.4:
         parts.append("jobs: [%s]" % ", ".join(inheritor() if rng.random() < 0.7 else "{id: %d}" % j
                                                 for j in range(rng.randint(1, 3))))
